@@ -525,13 +525,29 @@ class Norm:
         return self._mk("*" + self._k(n.value, d), "star", n)
 
     def _comp(self, n, d, op, cl):
+        # comprehension variables are alpha-renamed (%cv0, %cv1, ...): their names carry no meaning
+        saved = dict(self.bind)
         gens = []
-        for g in n.generators:
-            s = "for %s in %s" % (ast.unparse(g.target), self._k(g.iter, d))
-            for i in g.ifs:
-                s += " if " + self._k(i, d)
-            gens.append(s)
-        elt = self._k(n.elt, d) if not isinstance(n, ast.DictComp) else "%s:%s" % (self._k(n.key, d), self._k(n.value, d))
+        try:
+            idx = getattr(self, "_cvn", 0)
+            for g in n.generators:
+                it = self._k(g.iter, d)
+                names = []
+                for t in ast.walk(g.target):
+                    if isinstance(t, ast.Name):
+                        nm = "%%cv%d" % idx
+                        idx += 1
+                        self.bind[t.id] = Poly.atom(nm)
+                        names.append(nm)
+                self._cvn = idx
+                s = "for %s in %s" % (",".join(names), it)
+                for i in g.ifs:
+                    s += " if " + self._k(i, d)
+                gens.append(s)
+            elt = self._k(n.elt, d) if not isinstance(n, ast.DictComp) else "%s:%s" % (self._k(n.key, d), self._k(n.value, d))
+        finally:
+            self.bind = saved
+            self._cvn = getattr(self, "_cvn", 0) - sum(1 for g in n.generators for t in ast.walk(g.target) if isinstance(t, ast.Name))
         return self._mk(op + elt + " " + " ".join(gens) + cl, "comp", n)
 
     def _n_ListComp(self, n, d):
